@@ -331,6 +331,10 @@ func (c *Ctx) ruleUTF16() {
 					}
 					return constBytesEqual(call.Call.Args[1], "\x00")
 				}
+				if call, isCall := ce.Cond.(*ssa.Call); isCall && ce.Truth && ir.CallID(call) == "strings.HasSuffix" {
+					k, isK := call.Call.Args[1].(*ssa.Const)
+					return isK && k.Value != nil && k.Value.Kind() == constant.String && constant.StringVal(k.Value) == "\x00"
+				}
 				cmp, ok := ce.Cond.(*ssa.BinOp)
 				if !ok || (cmp.Op != token.EQL && cmp.Op != token.NEQ) || ce.Truth != (cmp.Op == token.EQL) {
 					return false
@@ -338,15 +342,23 @@ func (c *Ctx) ruleUTF16() {
 				if k, isK := ir.ConstInt(cmp.Y); !isK || k != 0 {
 					return false
 				}
-				ld, ok := ir.StripConv(cmp.X).(*ssa.UnOp)
-				if !ok {
+				var index ssa.Value
+				switch x := ir.StripConv(cmp.X).(type) {
+				case *ssa.UnOp:
+					ia, ok := x.X.(*ssa.IndexAddr)
+					if !ok {
+						return false
+					}
+					index = ia.Index
+				case *ssa.Lookup: // s[len(s)-1] of a string
+					if _, isMap := x.X.Type().Underlying().(*types.Map); isMap {
+						return false
+					}
+					index = x.Index
+				default:
 					return false
 				}
-				ia, ok := ld.X.(*ssa.IndexAddr)
-				if !ok {
-					return false
-				}
-				a := affineOf(ia.Index, 0)
+				a := affineOf(index, 0)
 				for k, v := range a.T {
 					if strings.HasPrefix(k, "len(") && v == 1 && a.K == -1 && len(a.T) == 1 {
 						return true
